@@ -606,15 +606,24 @@ def rule_py_headers(out):
     if w is None:
         out.undecided(rid, "BinaryProtocolWriter.__init__", rel, "not found")
     else:
-        seq = []
-        for st in w.body:
-            t = ast.unparse(st)
-            if "MAGIC_BYTES" in t and "write_bytes" in t:
-                seq.append("magic")
-            elif "write_fixed_int32" in t and "CURRENT_BINARY_FORMAT_VERSION" in t:
-                seq.append("version")
-            elif "string_serializer.write" in t and "schema" in t:
-                seq.append("schema")
+        # on every path of the constructor (module helpers expanded in place): the calls, in order
+        pew = PathEnum(tree)
+        seqs = []
+        for wp in pew.paths(w.body):
+            if wp.outcome == "raise":
+                continue
+            sq = []
+            for call, _n in wp.events:
+                fn_t = ast.unparse(call.func)
+                args_t = " ".join(wp._expand(a) for a in call.args)
+                if fn_t.endswith("write_bytes") and "MAGIC_BYTES" in args_t:
+                    sq.append("magic")
+                elif fn_t.endswith("write_fixed_int32") and "CURRENT_BINARY_FORMAT_VERSION" in args_t:
+                    sq.append("version")
+                elif fn_t.endswith("string_serializer.write") and "schema" in args_t:
+                    sq.append("schema")
+            seqs.append(sq)
+        seq = seqs[0] if seqs and all(q == seqs[0] for q in seqs) else seqs
         out.check(seq == ["magic", "version", "schema"], rid, "BinaryProtocolWriter.__init__/header order", pos(rel, w),
                   "writes magic, fixed int32 version, schema string", "header is not written as magic, int32 version, schema: %s" % seq)
     # readers: decided on the normally-completing paths of __init__ (helpers of the module expanded in
@@ -634,7 +643,7 @@ def rule_py_headers(out):
                 bad = [p for p in ok_paths if not p.asserts_equal_whole(marker)]
                 out.check(not bad, rid, "%s/%s compared with !=" % (key, which), pos(rel, r), "every path that completes has %s == the expected value" % which,
                           "the constructor can complete without the %s having been found equal to %s: some foreign streams are accepted" % (which, marker))
-            bad = [p for p in ok_paths if not (p.asserts_equal_whole("expected_schema") or p.asserts_falsy("expected_schema") or p.denies_and("expected_schema"))]
+            bad = [p for p in ok_paths if not (p.asserts_equal_whole("expected_schema") or p.asserts_falsy("expected_schema") or p.denies_and("expected_schema") or p.absent_or_equal("expected_schema"))]
             out.check(not bad, rid, key + "/schema compared with !=", pos(rel, r), "every path that completes has the stored schema equal to the expected one, or no expected schema was given",
                       "the constructor can complete although an expected schema was given and the stream's schema was not found equal to it")
             order_ok = all(p.order_of(["MAGIC_BYTES", "CURRENT_BINARY_FORMAT_VERSION", "expected_schema"]) for p in ok_paths)
@@ -755,6 +764,40 @@ class PyPath:
                 return True
         return False
 
+    def absent_or_equal(self, name):
+        """some literal of the path implies: `name` is falsy/None, or something was found equal to `name` itself"""
+        def norm(t):
+            t = t.replace(" ", "").replace("\n", "")
+            while t.startswith("(") and t.endswith(")") and _py_balanced(t[1:-1]):
+                t = t[1:-1]
+            return t
+
+        def whole(side):
+            return norm(ast.unparse(side)) == name or norm(self._expand(side)) == name
+
+        def imp(t, val):
+            if isinstance(t, ast.UnaryOp) and isinstance(t.op, ast.Not):
+                return imp(t.operand, not val)
+            if isinstance(t, ast.BoolOp):
+                if isinstance(t.op, ast.And):
+                    return any(imp(v, True) for v in t.values) if val else all(imp(v, False) for v in t.values)
+                return all(imp(v, True) for v in t.values) if val else any(imp(v, False) for v in t.values)
+            if isinstance(t, ast.Name):
+                return t.id == name and not val
+            if isinstance(t, ast.Compare) and len(t.ops) == 1:
+                op, l, r = t.ops[0], t.left, t.comparators[0]
+                if isinstance(op, (ast.Is, ast.Eq)) and ast.unparse(l) == name and ast.unparse(r) == "None":
+                    return val
+                if isinstance(op, (ast.IsNot, ast.NotEq)) and ast.unparse(l) == name and ast.unparse(r) == "None":
+                    return not val
+                if isinstance(op, ast.Eq) and (whole(l) or whole(r)):
+                    return val
+                if isinstance(op, ast.NotEq) and (whole(l) or whole(r)):
+                    return not val
+            return False
+
+        return any(imp(t, val) for t, val in self.lits)
+
     def denies_and(self, name):
         """not (name and X != name): either no expected value or equality"""
         for t, val in self.lits:
@@ -804,14 +847,22 @@ class PathEnum:
         self.limit = limit
         self.overflow = False
 
-    def split(self, test, val):
+    def split(self, test, val, env=None, depth=0):
+        if isinstance(test, ast.Name) and env and test.id in env and depth < 3:
+            # an explaining local: `ok = a == b` ... `if ok:` tests `a == b`
+            try:
+                sub = ast.parse(env[test.id], mode="eval").body
+            except SyntaxError:
+                sub = None
+            if isinstance(sub, (ast.Compare, ast.BoolOp)) or (isinstance(sub, ast.UnaryOp) and isinstance(sub.op, ast.Not)):
+                return self.split(sub, val, env, depth + 1)
         if isinstance(test, ast.UnaryOp) and isinstance(test.op, ast.Not):
-            return self.split(test.operand, not val)
+            return self.split(test.operand, not val, env, depth)
         if isinstance(test, ast.BoolOp):
             if isinstance(test.op, ast.And) and val:
-                return [l for v in test.values for l in self.split(v, True)]
+                return [l for v in test.values for l in self.split(v, True, env, depth)]
             if isinstance(test.op, ast.Or) and not val:
-                return [l for v in test.values for l in self.split(v, False)]
+                return [l for v in test.values for l in self.split(v, False, env, depth)]
         return [(test, val)]
 
     def paths(self, stmts, depth=0):
@@ -852,7 +903,7 @@ class PathEnum:
             res = []
             ev = p.events + calls(st.test)
             for val, body in ((True, st.body), (False, st.orelse)):
-                q = PyPath(p.lits + self.split(st.test, val), "fall", p.env, ev)
+                q = PyPath(p.lits + self.split(st.test, val, p.env), "fall", p.env, ev)
                 res += self._seq(q, body, depth)
             return res
         if isinstance(st, (ast.For, ast.While)):
@@ -884,7 +935,7 @@ class PathEnum:
             for a, prm in zip(st.value.args, fn.args.args):
                 env[prm.arg] = ast.unparse(a)
             res = []
-            for q in self._seq(PyPath(p.lits, "fall", env, p.events), fn.body, depth + 1):
+            for q in self._seq(PyPath(p.lits, "fall", env, p.events + [(st.value, len(p.lits))]), fn.body, depth + 1):
                 res.append(PyPath(q.lits, "fall" if q.outcome in ("fall", "return") else q.outcome, q.env, q.events))
             return res
         if isinstance(st, ast.Expr):
@@ -981,8 +1032,13 @@ def rule_py_stream_blocks(out):
         sites = {}
         for p in pe.paths(fn.body):
             for call, nlits in p.events:
-                if isinstance(call.func, ast.Attribute) and call.func.attr == "write_unsigned_varint" and call.args and ast.unparse(call.args[0]).startswith("len("):
-                    subject = ast.unparse(call.args[0])[4:-1]
+                arg0 = ""
+                if isinstance(call.func, ast.Attribute) and call.func.attr == "write_unsigned_varint" and call.args:
+                    arg0 = p._expand(call.args[0]).replace(" ", "")
+                    while arg0.startswith("(") and arg0.endswith(")") and _py_balanced(arg0[1:-1]):
+                        arg0 = arg0[1:-1]
+                if arg0.startswith("len(") and arg0.endswith(")") and _py_balanced(arg0[4:-1]):
+                    subject = arg0[4:-1]
                     ok = p.asserts_nonempty(subject, nlits)
                     k = (call.lineno, call.col_offset)
                     sites[k] = (sites.get(k, (True,))[0] and ok, call, subject)
